@@ -8,7 +8,13 @@ back through the API and table by table and compared (a) with the extracted mode
 and insertion order included, and (b) by the property oracle with the legacy store's own dump
 (same metadata, same multiset of (instant, duration, data), no other bucket, legacy file bytes
 unchanged).  A second, in-process stream ties detect_db_files / check_for_migration on generated
-directory listings."""
+directory listings.
+
+Round 2: (i) "session" cases run several constructions (SqliteStorage of either profile, at the default or a
+custom path, PeeweeStorage opened beforehand) in ONE interpreter; every SqliteStorage step is judged like a
+construction in a fresh interpreter (expand()).  (ii) Large legacy buckets (harness/c14_gen.py: thousands to
+tens of thousands of events, ties / touching / overlapping events at every instant) for copies that read a
+bucket in several pieces.  Every legacy store is written by a process of its own (fork in the build child)."""
 import hashlib
 import json
 import os
